@@ -75,4 +75,5 @@ def build(ub, algebra_text, variant=None):
             ub.emit_synth("bmc_verdict_gate", f"bmc_verdict_gate_{k}", f"fn bmc_verdict_gate_{k}(res: CheckSatResponse) -> bool", body, BMC, line,
                           cfg={"receivers": {}, "no_canary": True},
                           note="the condition is verbatim (variable spelled `res`); the Fail branch returns false, falling through (towards Success) returns true")
+    ub.pin_rest_of_file(SOLVER)   # frame: the other functions of the file (DESIGN 11.12)
     ub.out("} // verus!\nfn main() {}\n")
